@@ -633,6 +633,24 @@ class Ev:
             if self.stable_place(args[0]):
                 return ("len", args[0])
             return ("len", args[0], (self.fn.path, b))
+        if len(args) == 2 and "core::num" in str(path) and isinstance(args[0], tuple) and isinstance(args[1], tuple) and args[0] and args[1] and \
+                args[0][0] in ("int", "aff") and args[1][0] == "int":
+            # integer methods on constants / parity-affine values: the operator they stand for where that is exact
+            nm_ = strip_generics(path).split("::")[-1]
+            a_, n_ = args[0], args[1][1]
+            lo_ = a_[1] if a_[0] == "int" else (a_[2] if a_[1] >= 0 else None)       # smallest value the first operand can take
+            r_ = None
+            if nm_ in ("saturating_sub", "wrapping_sub") and lo_ is not None and lo_ >= n_:
+                r_ = fold_bin("Sub", a_, args[1])
+            elif nm_ in ("saturating_add", "wrapping_add"):
+                r_ = fold_bin("Add", a_, args[1])
+            elif nm_ == "div_ceil" and n_ > 0:
+                if a_[0] == "int":
+                    r_ = ("int", -(-a_[1] // n_))
+                elif a_[1] % n_ == 0 and a_[2] >= 0:
+                    r_ = ("aff", a_[1] // n_, -(-a_[2] // n_))
+            if r_ is not None:
+                return r_
         if f.get("trait") in ("core::ops::index::Index", "core::ops::index::IndexMut") and len(args) == 2:
             if isinstance(args[1], tuple) and len(args[1]) >= 2 and args[1][0] == "agg" and str(args[1][1]).endswith("RangeFull::RangeFull"):
                 return args[0]      # x[..] is x
